@@ -1,5 +1,5 @@
 #!/usr/bin/env python3
-"""seedtest.py <PROP> <mK> [--checks C19,C02] [--skip-confirm]
+"""seedtest.py <PROP> <mK> [--checks C19,C02] [--skip-confirm] [--stored]
 
 Confirms a seeded change produced by an independent sub-agent (builds, the repository's own test
 suite passes with it, its demonstration fails with it and passes without it) in the scratch worktree
@@ -33,7 +33,8 @@ def main():
     src = f"{SEED}/{prop}-out/{m}"
     dst = f"{VERIF}/seeded/{prop}-{m}"
     os.makedirs(dst, exist_ok=True)
-    for f in os.listdir(src):
+    stored = "--stored" in sys.argv   # use /verif/seeded/<PROP>-<mK>/ as it is (patches ported to the current /repo HEAD)
+    for f in ([] if stored else os.listdir(src)):
         if os.path.isfile(os.path.join(src, f)):
             shutil.copy(os.path.join(src, f), dst)
     patch = os.path.join(dst, "patch.diff")
@@ -102,6 +103,15 @@ def main():
             meta = json.load(open(meta_path))
         except Exception:
             meta = {"agent_meta_unparseable": True}
+    if skip_confirm and isinstance(meta.get("our_confirmation_and_detection"), dict):
+        old = meta["our_confirmation_and_detection"]
+        for k in ("demo_without_patch_exit", "test_suite_with_patch", "test_suite_passes", "demo_with_patch_exit", "demo_with_patch_tail", "confirmed"):
+            if k in old and k not in log:
+                log[k] = old[k]
+    _, head = sh("git rev-parse --short HEAD", cwd="/repo")
+    _, vhead = sh("git rev-parse --short HEAD", cwd=VERIF)
+    log["repo_head"] = head.strip().split("\n")[-1]
+    log["verif_head"] = vhead.strip().split("\n")[-1]
     meta["our_confirmation_and_detection"] = log
     json.dump(meta, open(meta_path, "w"), indent=1)
     print(json.dumps({k: log.get(k) for k in ("confirmed", "test_suite_passes", "demo_without_patch_exit", "demo_with_patch_exit", "detected_by")}))
